@@ -194,12 +194,16 @@ static void threads_execute(const Plan* p) {
   }
   long ref_new0 = g_tnode_new[0];
   progress(1, "C13", "threads");
+  /* in some plans the main thread is inside a critical section while the workers start */
+  int main_holds = (int)plan_env(p, "main_holds", 0);
+  if (main_holds) { int m = (main_holds - 1) % NMTX; if (main_holds <= NMTX) lock(g_mtx[m]); else if (!trylock(g_mtx[m])) viol("C13", "C13:trylock-model-mismatch", "trylock of a free mutex failed"); g_expected[m] += 1; }
   var th_obj[MAXTH], th_arg[MAXTH];
   for (int th = 1; th <= g_nth; th++) {
     th_obj[th] = new_raw(Thread, $(Function, thread_entry));
     th_arg[th] = new_raw(Int, $I(th));
     call(th_obj[th], th_arg[th]);
   }
+  if (main_holds) { int m = (main_holds - 1) % NMTX; for (int k = 0; k < 3; k++) sim_pause(); section(m, 4); unlock(g_mtx[m]); stat_add("thr.main_in_section_at_start", 1); }
   /* join in a seeded order; immediately after join the thread's function has finished and its writes are visible */
   int order[MAXTH]; for (int i = 0; i < g_nth; i++) order[i] = i + 1;
   Rng r; rng_seed(&r, p->seed, p->run, STREAM_AUX);
@@ -243,6 +247,7 @@ static void threads_generate(Plan* p, Rng* r) {
   int nth = (int)plan_env(p, "threads", -1);
   if (nth < 0) { nth = rng_chance(r, 3, 4) ? 2 + (int)rng_below(r, 4) : 6 + (int)rng_below(r, 11); plan_env_set(p, "threads", nth); }
   plan_env_set(p, "join.order", (int)rng_below(r, 4));
+  plan_env_set(p, "main_holds", rng_chance(r, 1, 3) ? 1 + (int)rng_below(r, 2 * NMTX) : 0);
   plan_env_set(p, "alloc.place", (int)rng_below(r, 3));
   if (rng_chance(r, 1, 2)) { plan_env_set(p, "sched.mode", 2); plan_env_set(p, "sched.chaos_den", 2 + (int)rng_below(r, 12)); }
   else {
